@@ -443,6 +443,28 @@ theorem C10_ts_linearizable {σ O R : Type} (B : Obj σ O R) (x0 : σ) (progs : 
     | true => rfl
     | false => rw [hw] at this; simp at this; omega
 
+/-- **The log is exactly the calls, each once**: in every reachable configuration the linearization stamps held by the
+goroutines — one per call that has passed its linearization point, in progress or completed (`thStamps`) — are a
+permutation of the stamps of the log, and they are pairwise distinct. With `C10_ts_linearizable` (each completed call's
+entry carries *its* stamp, strictly between invocation and response; the log in stamp order is a sequential run) this
+is linearizability in the textbook sense: the completed calls plus the pending ones that already took effect, ordered
+by their stamps, are a sequential history compatible with the real-time order. -/
+theorem C10_ts_log_is_the_calls {σ O R : Type} (B : Obj σ O R) (x0 : σ) (progs : List (List O))
+    (c : Cfg (Sh σ O R) (Th σ O R)) (hr : Reach (tsSys B) (Sh.start x0, progs.map Th.start) c) :
+    (claimed c.2).Perm (c.1.log.map (·.stamp)) ∧ (claimed c.2).Nodup := by
+  have hp := stamps_reach B x0 progs hr
+  refine ⟨hp, hp.nodup_iff.2 (nodup_of_sorted ?_)⟩
+  have := (C10_ts_linearizable B x0 progs c hr).2.1
+  exact List.pairwise_map.2 this
+
+/-- **The wrapper cannot block itself**: no reachable configuration is a deadlock — unless every goroutine has
+returned from its last call, some goroutine can take a step (one lock, never re-acquired inside a call, released on
+every path: the shape the skeleton obligations pin). -/
+theorem C10_ts_no_deadlock {σ O R : Type} (B : Obj σ O R) (x0 : σ) (progs : List (List O))
+    (c : Cfg (Sh σ O R) (Th σ O R)) (hr : Reach (tsSys B) (Sh.start x0, progs.map Th.start) c) :
+    ¬ Deadlock (tsSys B) finished c :=
+  ts_not_stuck (tinv_reach B x0 progs hr)
+
 /-- The sequential meaning of a call on the list object: a mutating method is the pointer-level model's `step` (=
 the translated code, `C10_code_is_model`), an observer leaves the list alone and reads `Len` / the forward walk /
 the backward walk / `Front` / `Back`. -/
@@ -554,6 +576,25 @@ example : Reach (tsSys listObj)
       [(1, 0), (0, 0), (2, 0), (1, 0), (1, 0), (1, 0), (0, 0), (0, 0), (0, 0), (0, 0), (2, 0), (2, 0), (2, 0), (2, 0),
        (1, 0), (1, 0), (0, 0)]) :=
   runSched_reach _ _ _
+
+/-- `NewList(lockFree ...bool)`: the condition of the regenerated body, `len(lockFree) > 0 && lockFree[0]`, as a
+function of the argument list. -/
+def newListLockFree (args : List Bool) : Bool := decide (args.length > 0) && args.getD 0 false
+
+/-- **Flavour selection for every argument list**: the lock-free list is handed out exactly when the first optional
+argument exists and is `true` — `NewList()`, `NewList(false)`, `NewList(false, …)` are thread-safe whatever follows,
+`NewList(true, …)` is lock-free whatever follows; the condition and the two constructors it chooses between are the
+regenerated source lines (the harness checks the same five spellings by dynamic type and by behaviour). -/
+theorem C10_newlist_flavour (args : List Bool) :
+    (newListLockFree args = true ↔ args.head? = some true) ∧
+    newListLockFree [] = false ∧ (∀ rest, newListLockFree (false :: rest) = false) ∧
+    (∀ rest, newListLockFree (true :: rest) = true) ∧
+    Hive.Gen.C10Code.hive_constructors.drop 12 = ["func NewList", "{", "if len(lockFree) > 0 && lockFree[0] {",
+      "return newList[T]()", "}", "return newThreadSafeList[T]()", "}"] := by
+  refine ⟨?_, rfl, fun _ => rfl, fun _ => by simp [newListLockFree], by decide⟩
+  cases args with
+  | nil => simp [newListLockFree]
+  | cons a r => cases a <;> simp [newListLockFree]
 
 end concurrent
 
